@@ -52,7 +52,7 @@ def meta_maker(rng, counter):
         k = rng.choice(["meta", "dep", "dep", "headc"])
         counter[0] += 1
         if k == "meta":
-            out.append({"k": "meta", "repr": True} if rng.random() < 0.3 else {"k": "meta", "resource": True} if rng.random() < 0.3 else {"k": "meta"})
+            out.append({"k": "meta", "repr": True} if rng.random() < 0.3 else {"k": "meta", "resource": True} if rng.random() < 0.3 else {"k": "meta", "singleton": True} if rng.random() < 0.3 else {"k": "meta"})
         elif k == "dep":
             d = {"k": "dep", "name": rng.choice(["da", "db", "dc", "dd"]), "version": rng.choice(["1.0", "1.9", "1.10", "2.0"]),
                  "script": [{"src": "s%d.js" % counter[0]}]}
@@ -264,6 +264,10 @@ def special_bases(ids):
         gen.TAG("div", T(), T(), T()), gen.TAG("div", {"k": "html", "s": "h9;"}, T(), {"k": "html", "s": "h10;"}),
         {"k": "list", "t": "taglist", "c": [{"k": "html", "s": "h11;"}, {"k": "html", "s": "h12;"}]}, {"k": "list", "t": "taglist", "c": [T(), T()]},
         gen.TAG("script", {"k": "html", "s": "h13;"}, {"k": "html", "s": "h14;"}),
+        # text that ends / starts with blanks or tabs next to block elements
+        gen.TAG("div", {"k": "text", "s": "Total: "}, gen.TAG("p", T())), gen.TAG("div", {"k": "text", "s": "x\t"}, gen.TAG("div"), {"k": "text", "s": " y"}),
+        {"k": "list", "t": "taglist", "c": [{"k": "text", "s": "a "}, gen.TAG("p", T()), {"k": "text", "s": "\tb "}, gen.TAG("span", T(), ws=False)]},
+        gen.TAG("span", {"k": "text", "s": "in "}, gen.TAG("div", T()), {"k": "text", "s": " out"}, ws=False),
         # raw-text elements whose several text children hold markup-significant characters
         gen.TAG("script", {"k": "text", "s": "if (a<b && c>d) {"}, {"k": "text", "s": "x&y; }"}), gen.TAG("style", {"k": "text", "s": "a>b{}"}, {"k": "text", "s": "c&d{}"}, {"k": "text", "s": "<!-- -->"}),
         gen.TAG("div", gen.TAG("script", {"k": "text", "s": "1<2"}, {"k": "text", "s": "3>2"}, ws=False), T()),
